@@ -10,6 +10,7 @@ let () =
     | "queue" -> Lvl_queue.handle dbg
     | "timesync" -> Lvl_timesync.handle dbg
     | "endpoint" -> Lvl_endpoint.handle dbg
+    | "session" -> Lvl_session.handle dbg
     (* LEVELS: one line per level, keep this marker *)
     | _ -> (fun _ -> "badlevel") in
   (try
